@@ -303,3 +303,58 @@ package authenticode
 //@   loop 0 sig "for k := uint16(0); k < n; k++" invariant 0 <= k && k <= n && n == msiN(files[i], files[j]) && a == files[i] && b == files[j] && \
 //@        forall(m, 0, k, a.NameRunes[m] == b.NameRunes[m])
 //@   modifies nothing
+//@
+//@ func DigestPowershell
+//@   property C11 C08
+//@   nopanic
+//@   requires r != nil && 1 <= hash && hash <= 19
+//@   ghost fed int = 0
+//@   before call writeUtf16(w, s, u): assert @script_text_goes_to_the_digest_in_the_detected_encoding w == iface(d) && u == isUtf16
+//@   on call writeUtf16(_, s, _) ret (e): fed = wrap64(fed + len(s))
+//@   ensures @digest_present_on_success ret1 == nil ==> ret0 != nil
+//@   ensures @text_size_counts_exactly_the_digested_text ret1 == nil ==> ret0.TextSize == fed && ret0.IsUtf16 == isUtf16
+//@   loop 0 sig "for" invariant fed == textSize && sigSize == 0 && br != nil && d != nil
+//@
+//@ func detectUtf16
+//@   property C11
+//@   nopanic
+//@   requires br != nil
+//@
+//@ func readLine
+//@   property C11
+//@   nopanic
+//@   requires br != nil
+//@
+//@ func VerifyPowershell
+//@   property C11 C02
+//@   nopanic
+//@   requires r != nil
+//@   requires @comment_delimiters_of_the_style_table_are_short len(psStyles[style].start) <= 16 && len(psStyles[style].end) <= 16
+//@   ghost cmsOK bool = false
+//@   ghost cmp bool = false
+//@   on call (*pkcs7.SignedData).Verify(sd, ext, skip) ret (s, e): cmsOK = (e == nil && !skip)
+//@   on call crypto/hmac.Equal(a, b) ret (ok): cmp = ok
+//@   before call DigestPowershell(src, st, h): assert @script_digested_again_with_the_signed_algorithm src == iface(r) && st == style && h == hash
+//@   ensures @cms_verified_and_script_digest_compared ret1 == nil ==> cmsOK && (!skipDigests ==> cmp)
+//@
+//@ func (*PsDigest).MakePatch
+//@   property C03 C08 C11
+//@   nopanic
+//@   requires pd != nil && 0 <= pd.TextSize && 0 <= pd.SigSize && pd.TextSize + pd.SigSize <= 4611686018427387904 && len(sig) <= 1073741824
+//@   requires @comment_delimiters_of_the_style_table_are_short len(psStyles[pd.SigStyle].start) <= 16 && len(psStyles[pd.SigStyle].end) <= 16
+//@   ghost adds int = 0
+//@   before call (*binpatch.PatchSet).Add(_, off, sz, blob): assert @new_signature_block_replaces_exactly_the_old_one_behind_the_script_text adds == 0 && off == pd.TextSize && sz == pd.SigSize
+//@   on call (*binpatch.PatchSet).Add(_, _, _, _) ret (): adds = adds + 1
+//@   ensures @one_replacement ret1 == nil ==> ret0 != nil && adds == 1
+//@   loop 0 sig "for i := 0; i < len(b64); i += 64" invariant 0 <= i
+//@
+//@ func fromUtf16
+//@   property C11
+//@   nopanic
+//@
+//@ func toUtf16
+//@   property C11
+//@   nopanic
+//@   ensures @encoded_text_fits_a_patch_blob len(ret0) <= 4294967295
+//@   allocbound 0 4 * len(x)
+//@   modifies nothing
